@@ -81,6 +81,17 @@ Definition bind (s : sig V) (c : call V) : option (list (slotval V)) :=
       else all_some (map (value_of env surplus extras) s)     (* rule 3 *)
   end.
 
+(* the call rule on calls whose `*seq` / `**map` operands may have the wrong type: "`*seq` must be an iterable",
+   "`**map` must be a mapping with string keys" (the string-key part is rule 2 above); otherwise as before *)
+Definition bind_x (s : sig V) (c : xcall V) : option (list (slotval V)) :=
+  match x_star c with
+  | Some StarNotIterable => None
+  | _ => match x_kw c with
+         | Some KwNotDict => None
+         | _ => bind s (call_of_x c)
+         end
+  end.
+
 Definition outcome_of_spec (o : option (list (slotval V))) : outcome V :=
   match o with Some l => OkSlots (map Some l) | None => Failed end.
 
